@@ -558,7 +558,7 @@ pub fn check_step(s: &Step, tr: &mut Tracker, viols: &mut Vec<Viol>) -> Decides 
                     }
                 }
             }
-            if !kind.borrowing() && *end == EndMode::Drop {
+            if !kind.borrowing() && *end != EndMode::Forget {
                 x.clear();
                 if *kind == IterKind::Drain {
                     if let Some(p) = post_t {
